@@ -825,6 +825,128 @@ UNITS.append(U_UNARY)
 
 
 # =====================================================================================================================
+# C05 / C12: the handlers of `==` and `!=` compare by Primitive::equals (numeric value across kinds, optionals looked through) -- `!=`
+# is its negation, never another notion of equality
+EQ_SPEC = r"""
+// Primitive::equals (obligations C05.eq.* / C12.equals.*): None = the two kinds cannot be compared
+pub uninterp spec fn equals_spec(a: Primitive, b: Primitive) -> Option<bool>;
+impl Primitive {
+    #[verifier::external_body]
+    pub fn equals(&self, other: &Primitive) -> (r: Result<bool, VErr>)
+        ensures r is Ok <==> equals_spec(*self, *other) is Some, r is Ok ==> r->Ok_0 == equals_spec(*self, *other)->Some_0
+    { unimplemented!() }
+}
+// what the property says about `a == b` for operand values (a below, b on top): equality does not depend on the side
+pub open spec fn eq_outcome(a: Primitive, b: Primitive, r: bool) -> bool {
+    (equals_spec(a, b) is Some && r == equals_spec(a, b)->Some_0) || (equals_spec(b, a) is Some && r == equals_spec(b, a)->Some_0)
+}
+pub open spec fn two_values(c: &Ctx) -> bool { c.stack@.len() == 2 && moved_out(c.stack@[0]) is Some && moved_out(c.stack@[1]) is Some }
+"""
+
+
+def build_eq_handlers(repo):
+    src = Source(repo)
+    log = []
+    names = ["pop", "push", "stack_size"]
+    ctx = ctx_impl(src, log, names)
+    extra = [Rule("R6", "ctx . pop ( ) . unwrap ( ) . move_out_of_heap_primitive ( ) ?", "move_out ( ctx . pop ( ) . unwrap ( ) ) ?", why="heap-pointer view abstract")]
+    hs = {n: handler(src, log, n, extra) for n in ["equ", "neq"]}
+    gen = header(log, f"{INSTR}: equ, neq; {CTXF}: Ctx methods") + prelude("ctx.rs") + ctx + EQ_SPEC + f"""
+//@ OBL C05.handler.equ
+pub fn equ(ctx: &mut Ctx, _args: &Vec<VString>) -> (r: Result<(), VErr>)
+    ensures
+        r is Ok ==> two_values(old(ctx)) && final(ctx).stack@.len() == 1 && final(ctx).stack@[0] is Bool
+            && eq_outcome(moved_out(old(ctx).stack@[0])->Some_0, moved_out(old(ctx).stack@[1])->Some_0, final(ctx).stack@[0]->Bool_0),
+        // two comparable values are compared: no spurious failure
+        (two_values(old(ctx)) && equals_spec(moved_out(old(ctx).stack@[0])->Some_0, moved_out(old(ctx).stack@[1])->Some_0) is Some
+            && equals_spec(moved_out(old(ctx).stack@[1])->Some_0, moved_out(old(ctx).stack@[0])->Some_0) is Some) ==> r is Ok,
+        rest(final(ctx)) == rest(old(ctx)),
+{{
+{render(hs['equ'], 1)}
+}}
+
+//@ OBL C05.handler.neq
+// `a != b` is true exactly when `a == b` is false
+pub fn neq(ctx: &mut Ctx, _args: &Vec<VString>) -> (r: Result<(), VErr>)
+    ensures
+        r is Ok ==> two_values(old(ctx)) && final(ctx).stack@.len() == 1 && final(ctx).stack@[0] is Bool
+            && eq_outcome(moved_out(old(ctx).stack@[0])->Some_0, moved_out(old(ctx).stack@[1])->Some_0, !final(ctx).stack@[0]->Bool_0),
+        (two_values(old(ctx)) && equals_spec(moved_out(old(ctx).stack@[0])->Some_0, moved_out(old(ctx).stack@[1])->Some_0) is Some
+            && equals_spec(moved_out(old(ctx).stack@[1])->Some_0, moved_out(old(ctx).stack@[0])->Some_0) is Some) ==> r is Ok,
+        rest(final(ctx)) == rest(old(ctx)),
+{{
+{render(hs['neq'], 1)}
+}}
+}} // verus!
+fn main() {{}}
+"""
+    obls = ctx_obls(names, ["C05"]) + [
+        Obl("C05.handler.equ", ["C05", "C12", "C13"], fn="equ", desc="equ (`==`): pushes Primitive::equals of the two operands' VALUES (through pointers); fails only when they cannot be compared"),
+        Obl("C05.handler.neq", ["C05", "C12", "C13"], fn="neq", desc="neq (`!=`): pushes the negation of Primitive::equals of the two operands' values -- the same notion of equality as `==`"),
+    ]
+    return gen, obls, log
+
+
+U_EQH = VUnit("c05_eq_handlers", ["C05", "C12", "C13"], "handlers of == and !=: Primitive::equals and its negation", build_eq_handlers)
+U_EQH.assumes = ["Primitive::equals abstract (units c05_ops: numeric cells, c12_equals: optionals, c13_lists: lists)", "heap pointers abstract (moved_out)"]
+UNITS.append(U_EQH)
+
+
+# =====================================================================================================================
+# C05 / C15: the frame of `bin_op` -- which operand is the left one, values through pointers, the result replaces the operands
+BINOP_SPEC = r"""
+// the operator table of bin_op (unit c05_dispatch, K-t: symbol -> operator on (left, right), all operand values): None = failure
+pub uninterp spec fn table_result(sym: Seq<char>, left: Primitive, right: Primitive) -> Option<Primitive>;
+#[verifier::external_body]
+pub fn apply_symbol(symbols: &VString, left: Primitive, right: Primitive) -> (r: Result<Primitive, VErr>)
+    ensures r is Ok <==> table_result(text_of(symbols), left, right) is Some, r is Ok ==> r->Ok_0 == table_result(text_of(symbols), left, right)->Some_0
+{ unimplemented!() }
+pub fn opt_ctx<'a>(o: Option<&'a VString>) -> (r: Result<&'a VString, VErr>) ensures o is Some <==> r is Ok, r is Ok ==> Some(r->Ok_0) == o
+{ match o { Some(x) => Ok(x), None => Err(VErr) } }
+"""
+
+
+def build_binop_frame(repo):
+    src = Source(repo)
+    log = []
+    names = ["pop", "clear_and_set_stack", "get_local_operating_stack"]
+    ctx = ctx_impl(src, log, names)
+    extra = [Rule("R9", "args . first ( ) . context ( $m ) ?", "opt_ctx ( args_first ( args ) ) ?", why="Option::context: an error when absent"),
+             Rule("R6", "match ( symbols . as_str ( ) , & left , & right ) { $$arms } . context ( $m ) ?", "apply_symbol ( symbols , left , right ) ?",
+                  why="the operator table: its own obligations C05.dispatch.* (K-t, verbatim text); here an abstract function of (symbol, left, right)")]
+    b = handler(src, log, "bin_op", extra)
+    gen = header(log, f"{INSTR}: bin_op (frame); {CTXF}: Ctx methods") + prelude("ctx.rs") + ctx + BINOP_SPEC + f"""
+//@ OBL C05.handler.bin_op
+// the compiled layout (C15.binop.layout) leaves the left operand's value below the right operand's: the one on top is the RIGHT operand
+pub fn bin_op(ctx: &mut Ctx, args: &Vec<VString>) -> (r: Result<(), VErr>)
+    ensures
+        r is Ok ==> args@.len() >= 1 && old(ctx).stack@.len() >= 2 && ({{
+            let n = old(ctx).stack@.len(); let left = moved_out(old(ctx).stack@[n - 2]); let right = moved_out(old(ctx).stack@[n - 1]);
+            left is Some && right is Some && table_result(text_of(&args@[0]), left->Some_0, right->Some_0) is Some
+            && final(ctx).stack@ == seq![table_result(text_of(&args@[0]), left->Some_0, right->Some_0)->Some_0] }}),
+        // no spurious failure: two operand values the operator accepts give a result
+        (args@.len() >= 1 && old(ctx).stack@.len() >= 2 && ({{
+            let n = old(ctx).stack@.len(); let left = moved_out(old(ctx).stack@[n - 2]); let right = moved_out(old(ctx).stack@[n - 1]);
+            left is Some && right is Some && table_result(text_of(&args@[0]), left->Some_0, right->Some_0) is Some }})) ==> r is Ok,
+        rest(final(ctx)) == rest(old(ctx)),
+{{
+{render(b, 1)}
+}}
+}} // verus!
+fn main() {{}}
+"""
+    obls = ctx_obls(names, ["C05"]) + [
+        Obl("C05.handler.bin_op", ["C05", "C15", "C01", "C13"], fn="bin_op", desc="bin_op: the operand on top is the right one, the one below the left one; both are used by VALUE (through element / field pointers); the operator table's result replaces the operand stack; an MScript error otherwise"),
+    ]
+    return gen, obls, log
+
+
+U_BINF = VUnit("c05_binop_frame", ["C05", "C15", "C01", "C13"], "bin_op handler: operand sides, values through pointers, result", build_binop_frame)
+U_BINF.assumes = ["the operator table is abstract here (unit c05_dispatch decides it on the verbatim text)", "heap pointers abstract (moved_out)"]
+UNITS.append(U_BINF)
+
+
+# =====================================================================================================================
 # C01 / C17: `assert`
 def build_assert(repo):
     src = Source(repo)
